@@ -1,0 +1,30 @@
+//go:build verif
+
+package proxy
+
+import (
+	"github.com/go-logr/logr"
+
+	"go.minekube.com/gate/pkg/edition/java/netmc"
+	"go.minekube.com/gate/pkg/edition/java/proto/packet"
+	"go.minekube.com/gate/pkg/util/permission"
+)
+
+// Verification hook for property C23, histories: ONE backendPlaySessionHandler (one backend connection of
+// one player) that handles several AvailableCommands packets. Add-only, no logic.
+
+// C23Handler keeps a backendPlaySessionHandler across calls.
+type C23Handler struct{ h *backendPlaySessionHandler }
+
+// C23NewHandler builds a bare player of proxy p over client (permissions decided by perm, which may change
+// its answers over time) with one backend play session handler.
+func C23NewHandler(p *Proxy, client netmc.MinecraftConn, perm permission.Func) *C23Handler {
+	pl := c23Player(p, client, perm)
+	sc := &serverConnection{player: pl, log: logr.Discard()}
+	return &C23Handler{h: &backendPlaySessionHandler{serverConn: sc, log: logr.Discard()}}
+}
+
+// C23HandleAvailableCommands forwards to the kept handler's handleAvailableCommands.
+func (c *C23Handler) C23HandleAvailableCommands(pkt *packet.AvailableCommands) {
+	c.h.handleAvailableCommands(pkt)
+}
